@@ -568,7 +568,110 @@ def r05_5(ctx, prog, crate):
     ctx.check(len(reads) >= 1, "R05.5", [cs.path, "divides-by-recorded-size"], "compute_stats does not read self.samples.sample_size", cs.where(0))
 
 
+def r05_6(ctx, prog, crate):
+    """The helpers compute_stats relies on, as path summaries (lib/patheval.py):
+    slice_middle(s) = s when empty, the two elements starting at len/2 - 1 when len is even, the one element at len/2
+    when odd (in any spelling of the sub-slicing); total_duration = FineDuration{ sum over time_samples of
+    duration.picos }."""
+    from lib.patheval import PathEval
+    from lib.symexpr import add, show, canon_cmp
+    b = prog.body("util::slice_middle", crate)
+    if ctx.anchor("R05.6", "util::slice_middle", 1 if b else 0, 1):
+        ctx.saw(b)
+        sums = PathEval(b).run()
+        if ctx.check(sums is not None and sums, "R05.6", ["slice_middle", "summarisable"], "slice_middle has a loop or too many paths", b.where(0)):
+            def is_len(e):
+                return e[0] == "call" and e[1].rsplit("::", 1)[-1] == "len" and len(e[2]) == 1 and e[2][0] in (("sptr", (1, ())), ("arg", 1, ()), ("ptr", (1, ())))
+            rows = {}
+            for sm in sums:
+                # classify the path by its decisions on len
+                empty = even = None
+                for a, pol in sm.conds:
+                    if a[0] == "Eq" and a[2] == ("int", 0) and is_len(a[1]) or (a[0] == "Eq" and a[1] == ("int", 0) and is_len(a[2])):
+                        empty = pol
+                    elif a[0] == "Eq" and {a[1][0], a[2][0]} == {"int", "rem"}:
+                        r_ = a[1] if a[1][0] == "rem" else a[2]
+                        k_ = a[2] if a[1][0] == "rem" else a[1]
+                        if is_len(r_[1]) and r_[2] == ("int", 2) and k_[1] in (0, 1):
+                            even = pol if k_[1] == 0 else (not pol)
+                # what is returned: the slice itself, or a window (offset, length) of it
+                off, ln, bad = ("int", 0), None, None
+                for callee, args, bb in sm.calls:
+                    if not callee.endswith("::index"):
+                        bad = callee
+                        continue
+                    rng = args[1]
+                    if rng[0] != "adt":
+                        bad = show(rng)
+                        continue
+                    kind = rng[1].rsplit("::", 1)[-1]
+                    f = dict(zip(rng[4], rng[3]))
+                    if kind == "RangeFrom":
+                        off = add(off, f["start"])
+                        ln = None if ln is None else add(ln, f["start"], -1)
+                    elif kind == "RangeTo":
+                        ln = f["end"]
+                    elif kind == "Range":
+                        off, ln = add(off, f["start"]), add(f["end"], f["start"], -1)
+                    else:
+                        bad = kind
+                whole = not sm.calls and sm.ret in (("arg", 1, ()), ("sptr", (1, ())))
+                case = "empty" if empty else ("even" if even else ("odd" if even is False else "?"))
+                rows.setdefault(case, []).append(("whole" if whole else ("bad:%s" % bad if bad else (off, ln))))
+            half = None
+            for case, vals in rows.items():
+                for v in vals:
+                    if isinstance(v, tuple):
+                        for t in (v[0],):
+                            pass
+            def want(case, v):
+                if case == "empty":
+                    return v == "whole"
+                if not isinstance(v, tuple) or v[1] is None:
+                    return False
+                off, ln = v
+                # offset = len/2 (- 1 when even); length = 2 / 1
+                def is_half(e):
+                    return e[0] == "div" and is_len(e[1]) and e[2] == ("int", 2)
+                if case == "even":
+                    ok_off = off[0] == "lin" and off[2] == -1 and len(off[1]) == 1 and off[1][0][1] == 1 and is_half(off[1][0][0])
+                    return ok_off and ln == ("int", 2)
+                if case == "odd":
+                    return is_half(off) and ln == ("int", 1)
+                return False
+            for case in ("empty", "even", "odd"):
+                vals = rows.get(case, [])
+                ctx.check(len(vals) == 1 and want(case, vals[0]), "R05.6", ["slice_middle", case],
+                          "for a slice of %s length slice_middle returns %s, expected %s" % (
+                              case, [v if isinstance(v, str) else "slice[%s ..][.. %s]" % (show(v[0]), show(v[1]) if v[1] else "?") for v in vals],
+                              {"empty": "the slice itself", "even": "slice[len/2 - 1 ..][.. 2]", "odd": "slice[len/2 ..][.. 1]"}[case]), b.where(0))
+            ctx.check(set(rows) <= {"empty", "even", "odd"}, "R05.6", ["slice_middle", "only-three-cases"], "unclassified paths: %s" % sorted(set(rows) - {"empty", "even", "odd"}), b.where(0))
+    td = prog.body("stats::sample::SampleCollection::total_duration", crate)
+    if ctx.anchor("R05.6", "SampleCollection::total_duration", 1 if td else 0, 1):
+        ctx.saw(td)
+        sums = PathEval(td).run()
+        ok = sums is not None and len(sums) == 1
+        if ok:
+            r = sums[0].ret
+            ok = r[0] == "adt" and r[1] == "time::fine_duration::FineDuration" and len(r[3]) == 1
+            e = r[3][0] if ok else None
+            chain = []
+            while ok and e[0] == "site":
+                chain.append(e[1].rsplit("::", 1)[-1])
+                e = e[3][0] if e[3] else ("opaque", "")
+            ok = ok and chain == ["sum", "map", "iter"]
+        ctx.check(ok, "R05.6", ["total_duration", "sum-over-all-samples"], "total_duration is not FineDuration { picos: time_samples.iter().map(..).sum() }", td.where(0))
+        key = [x for x in prog.children(td) if x.kind == "Closure"]
+        if ctx.check(len(key) == 1, "R05.6", ["total_duration", "map-closure"], "closures: %d" % len(key), td.where(0)):
+            r = {z.label() for z in key[0].prov.local_src(0)}
+            ctx.check(r == {"param:" + key[0].param_name(2) + ".duration.picos"}, "R05.6", ["total_duration", "summand-is-duration.picos"], "summand is %s" % sorted(r), key[0].where(0))
+        srcs = td.prov.local_src(0)
+        ctx.check(any(z.kind == "param" and z.b == ("time_samples",) for z in srcs) and not any(z.kind == "call" and z.a.endswith(("::rev", "::take", "::skip", "::filter", "::step_by")) for z in srcs),
+                  "R05.6", ["total_duration", "all-time-samples"], "total_duration does not run over all of self.time_samples", td.where(0))
+
+
 def run(ctx, prog, crate):
+    r05_6(ctx, prog, crate)
     r05_5(ctx, prog, crate)
     r05_1(ctx, prog, crate)
     r05_2(ctx, prog, crate)
